@@ -589,6 +589,11 @@ class Array:
             dom = cur().notes.get("int_domains", {}).get(self.a[()].get_id())
             if dom:
                 t = self.a[()]
+                if 0 in dom:
+                    # python raises on a zero modulus: that is a path outcome
+                    if cur().branch(t == 0):
+                        raise ZeroDivisionError("integer modulo by zero")
+                    dom = [v for v in dom if v != 0]
                 acc = z3.RealVal(int(o) % dom[-1])
                 for v in reversed(dom[:-1]):
                     acc = z3.If(t == v, z3.RealVal(int(o) % v), acc)
